@@ -570,6 +570,10 @@ func suiteNames(g *gen, e *emitter, n int) {
 	for b := 0; b < 256; b++ {
 		namesCase(e, string([]byte{byte(b)}))
 		namesCase(e, "a"+string([]byte{byte(b)}))
+		// every byte after an upper-case letter, before one, and between two (byte-wise case mapping must leave non-letters alone)
+		namesCase(e, "A"+string([]byte{byte(b)}))
+		namesCase(e, string([]byte{byte(b)})+"Z")
+		namesCase(e, "aZ"+string([]byte{byte(b)})+"Az")
 	}
 	pools := [][]string{methodPool, badMethodPool, reqHdrPool, badReqHdrPool, resHdrPool, badResHdrPool,
 		{"accept-charset", "accept-encoding", "connection", "content-length", "cookie", "cookie2", "date", "dnt", "expect", "host", "keep-alive",
@@ -822,6 +826,7 @@ func historyCase(g *gen, e *emitter, caseNo int) {
 	ids := make([]string, nm)
 	mws := make([]*cors.Middleware, nm)
 	shadow := make([]*decider, nm) // harness-side record of the configuration last applied successfully
+	cur := make([]*cors.Config, nm) // the Config value last applied successfully (nil: passthrough)
 	// a small pool of configurations: two accepted ones, one invalid
 	var pool []cors.Config
 	for len(pool) < 3 {
@@ -848,6 +853,21 @@ func historyCase(g *gen, e *emitter, caseNo int) {
 		rq := g.request(&c)
 		dec := shadow[k].decide(rq)
 		e.emit("h.serve\t"+ids[k]+"\t"+encBytes(rq.method)+"\t"+encKVs(rq.hdrs)+"\t"+encKVs(rq.pre)+"\t"+dec, runRequest(mws[k], rq)+"\t||\t"+dec)
+		if g.p(35) {
+			// the same request again with its ACRH field extended by one more line (a name nobody allows, a repetition of
+			// the first line, or an empty line): a verdict must not depend on the request answered just before
+			rq3 := rq
+			rq3.hdrs = nil
+			for _, h := range rq.hdrs {
+				if h.k == "Access-Control-Request-Headers" && len(h.v) > 0 {
+					extra := pick(g, []string{"x-evil-" + g.label(3), h.v[0], "", "zzz-last"})
+					h = kv{h.k, append(append([]string(nil), h.v...), extra)}
+				}
+				rq3.hdrs = append(rq3.hdrs, h)
+			}
+			dec3 := shadow[k].decide(rq3)
+			e.emit("h.serve\t"+ids[k]+"\t"+encBytes(rq3.method)+"\t"+encKVs(rq3.hdrs)+"\t"+encKVs(rq3.pre)+"\t"+dec3, runRequest(mws[k], rq3)+"\t||\t"+dec3)
+		}
 		// a preflight with a method nobody allows: differs between debug on and off once the origin passes
 		for _, o := range c.Origins {
 			if o == "*" {
@@ -879,6 +899,8 @@ func historyCase(g *gen, e *emitter, caseNo int) {
 			mws[k] = m
 			registerLongLived(m)
 			shadow[k] = newDecider(&c)
+			cc := cloneCfg(c)
+			cur[k] = &cc
 			e.emit(line, "ok")
 			if adversarial {
 				mutateConfig(&c)
@@ -886,10 +908,62 @@ func historyCase(g *gen, e *emitter, caseNo int) {
 		}
 		probe(k)
 	}
+	// relative derives from the configuration in force one that shares most of it: the same Origins with one switch
+	// flipped (possibly invalid now), a list of the same length made of the old patterns with one repeated, a permutation,
+	// one more related pattern. What a Reconfigure that reuses parts of the current configuration would get wrong.
+	relative := func(c cors.Config) cors.Config {
+		c = cloneCfg(c)
+		switch g.n(8) {
+		case 0:
+			c.DangerouslyTolerateSubdomainsOfPublicSuffixes = !c.DangerouslyTolerateSubdomainsOfPublicSuffixes
+		case 1:
+			c.DangerouslyTolerateInsecureOrigins = !c.DangerouslyTolerateInsecureOrigins
+		case 2:
+			c.Credentialed = !c.Credentialed
+		case 3:
+			c.PrivateNetworkAccess = !c.PrivateNetworkAccess
+		case 4:
+			if len(c.Origins) > 1 {
+				i, j := g.n(len(c.Origins)), g.n(len(c.Origins))
+				c.Origins[i] = c.Origins[j]
+			}
+		case 5:
+			g.r.Shuffle(len(c.Origins), func(i, j int) { c.Origins[i], c.Origins[j] = c.Origins[j], c.Origins[i] })
+		case 6:
+			if len(c.Origins) > 0 {
+				c.Origins = append(c.Origins, g.relatedPattern(pick(g, c.Origins)))
+			}
+		default:
+			if len(c.RequestHeaders) > 0 {
+				c.RequestHeaders = c.RequestHeaders[:len(c.RequestHeaders)-1]
+			} else {
+				c.RequestHeaders = []string{"X-Foo", "X-Bar"}
+			}
+		}
+		return c
+	}
 	steps := 4 + g.n(10)
 	for s := 0; s < steps; s++ {
 		k := g.n(nm)
-		switch g.n(7) {
+		switch g.n(9) {
+		case 7, 8:
+			base := pool[g.n(len(pool))]
+			if cur[k] != nil {
+				base = *cur[k]
+			}
+			c := relative(base)
+			e.emit("h.reconf\t"+ids[k]+"\t"+encConfig(&c)+"\t"+oracleFor(c.Origins), guard(func() string {
+				if err := mws[k].Reconfigure(&c); err != nil {
+					return errCount(err)
+				}
+				shadow[k] = newDecider(&c)
+				cc := cloneCfg(c)
+				cur[k] = &cc
+				return "ok"
+			}))
+			if adversarial {
+				mutateConfig(&c)
+			}
 		case 0, 1:
 			b := g.p(50)
 			mws[k].SetDebug(b)
@@ -900,6 +974,7 @@ func historyCase(g *gen, e *emitter, caseNo int) {
 					return "err"
 				}
 				shadow[k] = nil
+				cur[k] = nil
 				return "ok"
 			}))
 		case 3, 4:
@@ -909,6 +984,8 @@ func historyCase(g *gen, e *emitter, caseNo int) {
 					return errCount(err)
 				}
 				shadow[k] = newDecider(&c)
+				cc := cloneCfg(c)
+				cur[k] = &cc
 				return "ok"
 			}))
 			if adversarial {
